@@ -285,6 +285,31 @@ func (p *Prog) genFunc(key string) (*FnCtx, error) {
 				}
 			}
 			for k, en := range c.contract.Ensures {
+				if len(rstates) > 1 && (strings.Contains(en.Text, "forall ") || strings.Contains(en.Text, "exists ") || strings.Contains(en.Text, "sortedStrict(") || strings.Contains(en.Text, "sortedRange(") || strings.Contains(en.Text, "allLess(")) {
+					// quantified postconditions are checked return by return: on the merged state every array is an
+					// ite over the return paths, which defeats quantifier instantiation
+					for _, rs := range rstates {
+						if rs.pc == "false" {
+							continue
+						}
+						rvars := map[string]Val{}
+						for kk, v := range c.entryCtr {
+							rvars[kk] = v
+						}
+						for i, n := range c.contract.Results {
+							if n != "_" {
+								if v, ok := rs.env[robjs[i]]; ok {
+									rvars[n] = v
+								}
+							}
+						}
+						renv := &CEnv{vars: rvars, old: c.entry, oldV: c.entryCtr}
+						for _, ng := range c.clauseGoals(rs, en, renv) {
+							c.obligeNamed(rs, fmt.Sprintf("post.%d%s", k+1, ng.suffix), "post", fd.End(), ng.goal, "postcondition: "+en.Text+ng.desc)
+						}
+					}
+					continue
+				}
 				for _, ng := range c.clauseGoals(final, en, env) {
 					c.obligeNamed(final, fmt.Sprintf("post.%d%s", k+1, ng.suffix), "post", fd.End(), ng.goal, "postcondition: "+en.Text+ng.desc)
 				}
